@@ -37,6 +37,7 @@ Ctx == [nspath |-> NsPath,
         tparams |-> IF Top.k = "class" THEN {Top.tmpl[i].name : i \in 1..Len(Top.tmpl)} ELSE {},
         nmembers |-> IF Top.k = "class" THEN Len(Top.members) ELSE 0,
         cnt    |-> cnt,
+        items  |-> IF Top.k = "namespace" THEN Top.items ELSE <<>>,   \* what the open namespace holds so far
         nitems |-> LET RECURSIVE NI(_)
                        NI(items) == IF items = <<>> THEN 0
                                     ELSE (IF Head(items).k = "namespace" THEN 1 + NI(Head(items).items) ELSE 1) + NI(Tail(items))
